@@ -50,7 +50,7 @@ def obligations(tier):
         CH("extensions_argument_unchanged", H, "extensions_argument", t, mode="E1s", functions=F[2:] + ["stix2.properties.ExtensionsProperty.clean", "stix2.custom._custom_object_builder"],
            bounds="5 shapes of a caller's extensions dictionary (empty, instances only, dictionaries, mixed, empty instance) x 4 users (custom object / observable declared "
                   "with extension_name, new_version, File) x once/twice: keys, value identities and content unchanged, an object built earlier from it unchanged"),
-        CH("arguments_unchanged", H, "arguments_unchanged", t, mode="E1s", functions=F[2:], bounds="33 operations (incl. one ObjectFactory / Environment used repeatedly with per-call values given as lists and singly, Bundle(list, item), Bundle(list, list, item) in both versions; 8 with inputs in a form the library normalises: hash algorithm spellings, timestamps without millisecond digits, dict-kept objects of unregistered types through stores, composites, versioning and markings) x (called once, called twice on the same arguments)"),
+        CH("arguments_unchanged", H, "arguments_unchanged", t, mode="E1s", functions=F[2:], bounds="37 operations (incl. one ObjectFactory / Environment used repeatedly with per-call values given as lists and singly, Bundle(list, item), Bundle(list, list, item) in both versions; 8 with inputs in a form the library normalises: hash algorithm spellings, timestamps without millisecond digits, dict-kept objects of unregistered types through stores, composites, versioning and markings; timestamp objects taken from one finished object into another's constructor across precisions; custom_properties holding entries that are dropped) x (called once, called twice on the same arguments)"),
         CH("interoperability_objects_copy_and_version", H, "interoperability_objects", t, mode="E1s", functions=["stix2.base._STIXBase.__deepcopy__", "stix2.versioning.new_version"],
            bounds="4 objects admitted with interoperability=True (non-RFC-4122 identifiers in id / references; 2.0 and 2.1, constructor and parse) x deepcopy / new_version / revoke / object and granular marking: equal copy, same id, original unchanged"),
         CH("earlier_objects_unaffected", H, "earlier_objects_unaffected", t, mode="E1s", functions=["stix2.environment.Environment.__init__", "stix2.v21.sdo.CustomObject", "stix2.v21.observables.CustomObservable"],
